@@ -2208,20 +2208,3 @@ impl TypeChecker {
         self.name_generator.verif_c02_counter()
     }
 }
-
-// verification hook (properties C02/C16): crate-visible names of the solver's types and the counter of
-// the fresh-variable generator (read-only)
-#[cfg(feature = "verif")]
-pub(crate) mod verif_c02 {
-    pub(crate) use super::constraints::{
-        Constraint, ConstraintSet, ConstraintSolverError, TrivialResolution,
-    };
-    pub(crate) use super::substitutions::{ApplySubstitution, Substitution, SubstitutionError};
-}
-
-#[cfg(feature = "verif")]
-impl TypeChecker {
-    pub(crate) fn verif_c02_name_counter(&self) -> u64 {
-        self.name_generator.verif_c02_counter()
-    }
-}
